@@ -41,6 +41,10 @@ CHECKS = {
          'A pool of mutable transactions, immutable snapshots, mutable copies, standalone part copies and blocks is driven by 26 rules; after every '
          'step every object must serialise to the reference encoding of its own model with matching txid/wtxid/hash(), so aliasing and stale caches '
          'surface on a later step. All 19,683 histories of length 3 over a 27-op catalogue; setattr/delattr on every slot of nine immutable classes.', TRUST),
+ 'C10': ('fault_enumeration', 'exhaustive enumeration of short byte strings / alphabet strings / all 256 versions x 41 lengths + enumeration of every single-character substitution, deletion and insertion fault, judged by a reference big-integer codec and checksum rule',
+         'Codec equality and mutual inversion on all byte strings <=2 and all alphabet strings <=3; for Base58Check every (version, length) pair '
+         'round-trips and each injected fault (all 57L+L+58(L+1) single-character faults for selected strings, sampled for the rest, plus byte-level '
+         'fragments) must be accepted, raise Base58ChecksumError or another Base58Error exactly as the reference rule says.', TRUST),
  'C13': ('exploration', 'Hypothesis differential vs an independent pure-Python secp256k1 / strict-DER / Base58Check reference; exhaustive prefix-byte enumeration for public keys',
          'Public-key derivation, WIF text and round trip on all four chains, strict-DER low-S validity of fresh library signatures, verify() on a '
          'ten-class (r,s) matrix and is_fullyvalid on 14 malformed-key classes are compared with a reference written from the curve equation.', TRUST),
